@@ -8,11 +8,12 @@ RULE = ("P1: for every strictly increasing integer knot vector with 2..N knots o
         " 200 knots) likewise. P1 also: invariance under rescaling the abscissa axis; P2 (every second case again with "
         "knots and target times 2^-70 and 2^45): every case replayed through the checked and unchecked variants with "
         "one and with three targets per call (knot hits compared bit-exactly, others within 2^-40 of the ordinate "
-        "scale), +-1 ulp neighbours of knots must lie between the neighbouring ordinates, one ulp beyond either end "
-        "knot follows the mode (also on an integer-shifted axis where the subtraction rounds), targets and knots of "
-        "-0.0 behave as 0, unsorted abscissae (also on an axis scaled by 2^-70, and when only one ulp out of order) and"
-        " mismatched lengths must be rejected. Case class = (family, mode, position of the target: left-oob/first-"
-        "knot/inside/inner-knot/last-knot/right-oob).")
+        "scale), +-1 ulp neighbours of knots must lie between the neighbouring ordinates, an out-of-range target "
+        "between two in-range ones is handled on its own, one ulp beyond either end knot follows the mode (also on an "
+        "integer-shifted axis where the subtraction rounds), targets and knots of -0.0 behave as 0, unsorted abscissae "
+        "(also on an axis scaled by 2^-70, and when only one ulp out of order) and mismatched lengths must be rejected."
+        " Case class = (family, mode, position of the target: left-oob/first-knot/inside/inner-knot/last-knot/right-"
+        "oob).")
 ASSUMPTIONS = ["rational knots/ordinates/targets (exact in f64); equal neighbouring abscissae are outside the property's domain",
                "no P3: the function is stateless and the exhaustive case analysis already covers every branch; random traces would add nothing the spec does not enumerate"]
 EXHAUSTIVE = True
